@@ -31,6 +31,14 @@ pub fn ordered_contains_duplicates(l: &[&dyn RawLock]) -> bool {
 		return false;
 	}
 
+	// A zero-sized value (such as an empty owned collection) contains no lock,
+	// and distinct zero-sized values may share an address, so they never count
+	let l: Vec<&dyn RawLock> = l
+		.iter()
+		.copied()
+		.filter(|lock| std::mem::size_of_val(*lock) != 0)
+		.collect();
+
 	l.windows(2)
 		// NOTE: addr_eq is necessary because eq would also compare the v-table pointers
 		.any(|window| std::ptr::addr_eq(window[0], window[1]))
